@@ -192,6 +192,14 @@ func (b *termBuilder) build(v ssa.Value, d int) *Term {
 					return b.of(only.Val, d+1)
 				}
 			}
+			// a package-level variable of this module that is assigned exactly once, in its
+			// package initialiser, is a name for what it was assigned (`var durableWrite =
+			// pebble.Sync`, a named constant table, …)
+			if g, ok := x.X.(*ssa.Global); ok {
+				if v := globalAlias(g); v != nil {
+					return b.of(v, d+1)
+				}
+			}
 			in := b.of(x.X, d+1)
 			if in.Op == "addr" {
 				return &Term{Op: "field", Sym: in.Sym, Owner: in.Owner, Args: in.Args}
@@ -1141,6 +1149,63 @@ func bindingOf(fv *ssa.FreeVar) ssa.Value {
 			if mc, ok := in.(*ssa.MakeClosure); ok && mc.Fn == ssa.Value(fn) && idx < len(mc.Bindings) {
 				return mc.Bindings[idx]
 			}
+		}
+	}
+	return nil
+}
+
+var globalStores map[*ssa.Global][]*ssa.Store
+var globalEscapes map[*ssa.Global]bool
+
+// globalAlias: the value the own global g was initialised with, when g is written exactly once
+// (in a package initialiser), its address is used for nothing but loads and that store, and the
+// value is itself a load of another global or a constant — i.e. g only renames something.
+func globalAlias(g *ssa.Global) ssa.Value {
+	if theProgram == nil || g.Pkg == nil || g.Pkg.Pkg == nil || !strings.HasPrefix(g.Pkg.Pkg.Path(), modPrefix) {
+		return nil
+	}
+	if globalStores == nil {
+		globalStores = map[*ssa.Global][]*ssa.Store{}
+		globalEscapes = map[*ssa.Global]bool{}
+		for _, fn := range theProgram.OwnFuncs {
+			for _, b := range fn.Blocks {
+				for _, in := range b.Instrs {
+					for _, op := range in.Operands(nil) {
+						gg, ok := (*op).(*ssa.Global)
+						if !ok {
+							continue
+						}
+						switch x := in.(type) {
+						case *ssa.Store:
+							if x.Addr == ssa.Value(gg) {
+								globalStores[gg] = append(globalStores[gg], x)
+								continue
+							}
+							globalEscapes[gg] = true
+						case *ssa.UnOp:
+							if x.Op != token.MUL {
+								globalEscapes[gg] = true
+							}
+						default:
+							globalEscapes[gg] = true // address taken, indexed, passed on, …
+						}
+					}
+				}
+			}
+		}
+	}
+	if globalEscapes[g] || len(globalStores[g]) != 1 {
+		return nil
+	}
+	st := globalStores[g][0]
+	if st.Parent() == nil || st.Parent().Name() != "init" {
+		return nil
+	}
+	// only a rename of something outside this module (a library object such as pebble.Sync):
+	// the module's own named globals keep their names, which the rules use as identities
+	if v, ok := st.Val.(*ssa.UnOp); ok && v.Op == token.MUL {
+		if og, ok := v.X.(*ssa.Global); ok && og.Pkg != nil && og.Pkg.Pkg != nil && !strings.HasPrefix(og.Pkg.Pkg.Path(), modPrefix) {
+			return v
 		}
 	}
 	return nil
